@@ -155,6 +155,62 @@ impl RingMonitor {
     }
 }
 
+/// Why did the ring not converge?  Recognises the one constellation that cannot be resolved
+/// without reading back one's own transmission: two (or more) token holders whose transmissions
+/// collide every single time because they are polled with exactly the same period, without
+/// jitter or skew, and therefore act in lock-step for ever.  The signature says how it began.
+fn lockstep_diagnosis(w: &World) -> (&'static str, String) {
+    let bus = w.bus.borrow();
+    let n = bus.txs.len();
+    if n < 60 {
+        return ("not-converged", String::new());
+    }
+    let mut in_collision = vec![false; n];
+    for (a, b) in &bus.collisions {
+        if *a < n {
+            in_collision[*a] = true;
+        }
+        if *b < n {
+            in_collision[*b] = true;
+        }
+    }
+    // the uninterrupted run of colliding transmissions at the end of the trace
+    let mut first = n;
+    while first > 0 && in_collision[first - 1] {
+        first -= 1;
+    }
+    if n - first < 40 {
+        return ("not-converged", String::new());
+    }
+    let mut senders: Vec<usize> = bus.txs[first..].iter().filter(|t| t.real).map(|t| t.sender).collect();
+    senders.sort();
+    senders.dedup();
+    if senders.len() < 2 || bus.txs[first..].iter().any(|t| !t.real) {
+        return ("not-converged", String::new());
+    }
+    let c0 = &w.stations[senders[0]].cfg;
+    let exact = senders.iter().all(|s| {
+        let c = &w.stations[*s].cfg;
+        c.p_min_us == c.p_max_us && c.p_max_us == c0.p_max_us && c.skew_ppm == 0 && c.dup_poll_pm == 0 && c.rx_chunk_us == c0.rx_chunk_us
+    });
+    if !exact {
+        return ("not-converged-colliding-token-holders", format!("; the last {} transmissions all collided", n - first));
+    }
+    let claim = |t: &crate::bus::Tx| matches!(&t.frame, Some(Frame::Token { da, sa }) if da == sa);
+    let began_with_claims = first + 1 < n && claim(&bus.txs[first]) && claim(&bus.txs[first + 1]) && bus.txs[first].sender != bus.txs[first + 1].sender;
+    if began_with_claims {
+        (
+            "not-converged-lockstep-after-simultaneous-claim",
+            format!("; the last {} transmissions all collided: stations polled with exactly the same period ({} us, no jitter, no skew) claimed the token in the same instant and have acted in lock-step since", n - first, c0.p_max_us),
+        )
+    } else {
+        (
+            "not-converged-lockstep",
+            format!("; the last {} transmissions all collided: stations polled with exactly the same period ({} us, no jitter, no skew) act in lock-step", n - first, c0.p_max_us),
+        )
+    }
+}
+
 /// Do all online stations currently agree on the ring (LAS = online set, everybody in the ring)?
 pub fn agreement(w: &World) -> bool {
     let mut set = 0u128;
@@ -285,17 +341,19 @@ impl Monitor for RingMonitor {
                     self.phase = Phase::Stable;
                     self.last_token_da = None;
                 } else if w.now > self.deadline {
+                    let (sig, why) = lockstep_diagnosis(w);
                     self.violate(
                         w,
                         if self.recovery { "ring.recovery" } else { "ring.convergence" },
-                        "not-converged",
+                        sig,
                         None,
                         format!(
-                            "no agreement {} us after the last {} (bound {} us): {}",
+                            "no agreement {} us after the last {} (bound {} us): {}{}",
                             w.to_us(w.now - self.quiet_from),
                             if self.recovery { "disturbance" } else { "population change" },
                             w.to_us(self.deadline - self.quiet_from),
-                            self.disagreement
+                            self.disagreement,
+                            why
                         ),
                     );
                     self.phase = Phase::Done;
